@@ -129,10 +129,13 @@ DecryptOK(enc, K, W) ==
 DecryptVal(enc, K, W) == (CHOOSE e \in enc : e[1] = K.mid /\ e[2] = W.val.rs)[3]
 
 \* ---- the validity proof: tokens of "nzk^c1^a..^c2^a..^c3^a..^", each token
-\*   [n, i, c]: n its value when it is a decimal numeral (else -1); i, c: the token answers the i-th challenge of the
-\*   statement (m, y) like the generated answer does, c = "eq" same residue, "sq" same square only, "no" unrelated
-StageOfChallenge(g) == IF g <= Rounds[1] THEN 1 ELSE IF g <= Rounds[1] + Rounds[2] THEN 2 ELSE 3
-AnswerOK(tok, s, g) == tok.i = g /\ StageOfChallenge(g) = s /\ (tok.c = "eq" \/ (s >= 2 /\ tok.c = "sq"))
+\*   [n, i, st, c]: n its value when it is a decimal numeral (else -1); i, st, c: the token relates to the answer that
+\*   an honest prover of the statement (m, y) gives to the i-th challenge with the relation of stage st:
+\*   c = "eq" same residue, "sq" same square only, "no" unrelated to every such answer.
+\*   By the algebra (ThStage1-3) the honest answer is the only residue (stage 1) / the only square (stages 2, 3)
+\*   that passes.  The challenges form one chain over all stages, so the i-th answer of the text must be an answer
+\*   to the i-th challenge, whatever the counts are.
+AnswerOK(tok, s, g) == tok.i = g /\ tok.st = s /\ (tok.c = "eq" \/ (s >= 2 /\ tok.c = "sq"))
 RECURSIVE StagesOK(_, _, _, _)
 StagesOK(t, pos, s, g) ==
   IF s > 3 THEN TRUE
@@ -159,10 +162,10 @@ Mk(k) == [t |-> "M", k |-> k]
 Yk(k) == [t |-> "Y", k |-> k]
 PadT(k, d, salt) == [t |-> "pad", k |-> k, d |-> d, salt |-> salt]     \* squares: PRab encoding of d
 EncT(k, v, r) == [t |-> "enc", k |-> k, d |-> v, salt |-> r]           \* square of the SAEP block of v
-ChT(k, g) == [t |-> "ch", k |-> k, d |-> g, salt |-> 0]                \* the square answered in round g of stages 2, 3
+ChT(k, g, st, ver) == [t |-> "ch", k |-> k, d |-> g, salt |-> ver, st |-> st]   \* the square answered in round g (stage st = 2, 3)
 Root(x, rho, s) == [t |-> "root", x |-> x, rho |-> rho, s |-> s]       \* one of the four roots: rho in {0,1}, s in {1,-1}
 SqV(x) == [t |-> "sqv", x |-> x]                                      \* the square itself as a number
-Inv1(k, g) == [t |-> "inv", k |-> k, g |-> g]                          \* stage 1: the m-th root of challenge g
+Inv1(k, g, ver) == [t |-> "inv", k |-> k, g |-> g, ver |-> ver]        \* stage 1: the m-th root of challenge g (proof ver)
 
 NumMuts == {"none", "lead0", "space", "plusm", "minusm", "comp", "neg", "otherroot", "zero", "one", "mm1", "m",
             "plus1", "otherres", "double", "oversized", "half", "pub", "foreign", "empty", "nonnum"}
@@ -196,7 +199,7 @@ RECURSIVE Res(_, _)
 Res(M, v) ==
   CASE v.t = "root" -> IF Mk(v.x.k) = M THEN [c |-> "root", x |-> v.x, rho |-> v.rho, s |-> v.s] ELSE Generic(v)
     [] v.t = "sqv" -> IF Mk(v.x.k) = M THEN [c |-> "sq", x |-> v.x, s |-> 1] ELSE Generic(v)
-    [] v.t = "inv" -> IF Mk(v.k) = M THEN [c |-> "inv", k |-> v.k, g |-> v.g, s |-> 1] ELSE Generic(v)
+    [] v.t = "inv" -> IF Mk(v.k) = M THEN [c |-> "inv", k |-> v.k, g |-> v.g, ver |-> v.ver, s |-> 1] ELSE Generic(v)
     [] v.t = "fmt" -> Res(M, v.v)
     [] v.t = "shift" -> IF Mk(v.k) = M THEN Res(M, v.v) ELSE Generic(v)
     [] v.t = "comp" -> IF Mk(v.k) = M THEN NegRes(Res(M, v.v)) ELSE Generic(v)
